@@ -494,6 +494,57 @@ def constructors_agree(prog, res):
     res.need(R, 3)
 
 
+WRITE_ONLY_OK = {
+    "ZSTD_Trace": "record handed to the tracing hook (output only)",
+    "ZSTD_frameProgression": "record returned to the caller (output only)",
+    ("ZSTD_Sequence", "rep"): "output field of the sequence extraction API, documented as unused",
+    ("ZSTD_cwksp", "isStatic"): "read by assertions only (debug builds)",
+    ("DTableDesc", "tableType"): "selects the X1 / X2 Huffman decoder; not read when only one variant is compiled (HUF_FORCE_DECOMPRESS_X1/X2)",
+    ("seqStore_t", "maxNbLit"): "read by assertions only (debug builds)",
+    ("COVER_ctx_t", "nbTestSamples"): "informational; the trainers recompute the test range from nbTrainSamples",
+    ("FASTCOVER_ctx_t", "nbTestSamples"): "informational; the trainers recompute the test range from nbTrainSamples",
+    ("ZSTD_seqSymbol_header", "fastMode"): "table header field kept for layout compatibility; decoders use tableLog only",
+    ("offsetCount_t", "offset"): "element moved as a whole by the insertion sort; read through struct copies",
+    ("rsyncState_t", "hash"): "initialised for symmetry; the rolling hash is recomputed from the buffer on every call",
+    ("seqStoreSplits", "splitLocations"): "array filled through the pointer and consumed by the caller through its own alias",
+}
+
+
+def no_write_only_state(prog, res):
+    """T13: a field of library state that some function stores into is read somewhere (in the analysed configuration).
+    A store nobody reads is a forgotten use - the shape left behind when a refactor stops passing an attribute on."""
+    R = "T13.no-write-only-field"
+    W, Rd = {}, set()
+    for f in prog.all_functions():
+        if not f.file.startswith("lib/"):
+            continue
+        wr_ids = set()
+        for b, i, r in f.roots():
+            for x in walk(r):
+                if x.get("k") == "asg":
+                    l = strip_casts(x["lhs"])
+                    while l is not None and l.get("k") == "idx":
+                        l = strip_casts(l["b"])
+                    if l is not None and l.get("k") == "mem" and l.get("rec"):
+                        W.setdefault((l["rec"], l["f"]), f)
+                        if x.get("op") == "=":
+                            wr_ids.add(id(l))
+        for b, i, r in f.roots():
+            for y in walk(r):
+                if y.get("k") == "mem" and y.get("rec") and id(y) not in wr_ids:
+                    Rd.add((y["rec"], y["f"]))
+    dead = sorted(k for k in W if k not in Rd)
+    for k in dead:
+        why = WRITE_ONLY_OK.get(k) or WRITE_ONLY_OK.get(k[0])
+        f = W[k]
+        if why:
+            res.ok(R, "%s.%s" % k, f.loc, "write-only by design: " + why)
+        else:
+            res.bad(R, "%s.%s" % k, f.loc, "field %s.%s is stored (in %s) but never read anywhere in the library: an attribute that used to be passed on is now ignored" % (k[0], k[1], f.name))
+    res.check(len(W) > 400, R, "fields-scanned", "lib/", "%d written fields scanned, %d write-only (all on the reasoned list)" % (len(W), len(dead)), "field scan suspiciously small (%d)" % len(W))
+    res.need(R, 10)
+
+
 CLOCKS = {"clock", "time", "gettimeofday", "clock_gettime", "rand", "random", "srand", "rand_r", "getenv", "secure_getenv", "getpid", "gettid",
           "pthread_self", "UTIL_getTime", "UTIL_clockSpanMicro", "timespec_get", "GetCurrentClockTimeMicroseconds", "drand48", "lrand48", "arc4random"}
 
@@ -637,9 +688,10 @@ def mt_boundaries(prog, res):
 
 def run(tier):
     res = Result("C07", tier)
-    tus, info = extract(["compress", "common"])
+    tus, info = extract(["compress", "common", "decompress", "dictBuilder"])
     prog = Program(tus)
     res.info = info
+    no_write_only_state(prog, res)
     matchstate_reset(prog, res)
     window_rules(prog, res)
     opt_first_block(prog, res)
